@@ -237,6 +237,9 @@ func RunC14(t *Trace, st *Stats) *Violation {
 func GenC14(seed uint64, run int) *Trace {
 	r := RunRng(seed, "C14", "medium", run)
 	spec := GenImageSpec(r, 8)
+	if r.Chance(1, 25) {
+		LongBlocks(r, &spec)
+	}
 	if r.Chance(1, 10) {
 		// a block with a 3-byte length varint
 		spec.Blocks = append(spec.Blocks, BlkSpec{Kind: "raw", Seed: 9, Size: 16400})
